@@ -249,6 +249,9 @@ func (r *checkResult) writeEvidence(o *checkOpts) error {
 		if tr.smt.intMode {
 			mode = "int"
 		}
+		if tr.fn == nil {
+			continue
+		}
 		pos := tr.fn.Prog.Fset.Position(tr.fn.Pos())
 		fe := &fnEv{Func: tr.name, File: fmt.Sprintf("%s:%d", pos.Filename, pos.Line), Mode: mode, Abstracted: tr.abstracted, Loops: map[string]string{}, Termination: "not-proved", Notes: tr.notes}
 		for k, v := range tr.loopInfo {
